@@ -359,6 +359,19 @@ def _enc_query(m, op):
     return enc_X(X, e, single_feature_model=sfm)
 
 
+def k5_applies(m, op, exc_name):
+    """classifier of known finding K5: a TreeBandit in which no arm owns a fitted tree (every arm that was trained has been
+    removed, or D was empty) is queried with a pandas Series -> UnboundLocalError in MAB.__convert_context (there is no tree
+    to read the feature count from, so the Series cannot be told to be one row or one column)"""
+    imp = m._imp
+    if exc_name != "UnboundLocalError" or op.get("x_enc") != "series" or not hasattr(imp, "arm_to_leaf_to_rewards"):
+        return False
+    if any(len(v) > 0 for v in imp.arm_to_leaf_to_rewards.values()):
+        return False
+    import pandas as pd
+    return isinstance(_enc_query(m, op), pd.Series)
+
+
 def apply_op(m, op):
     """drive one public call described by a literal op dict; returns the canonical result"""
     k = op["op"]
